@@ -100,7 +100,7 @@ def run(chk):
         saved = ms._compute_stm
         ms._compute_stm = fake
         try:
-            stub = _Obj(var_dynsys="VAR", orbit=_Obj(initial_state="X0"), period="T", forward=forward_attr,
+            stub = _Obj(var_dynsys="VAR", orbit=_Obj(initial_state="X0", period="T"), period="T", forward=forward_attr,
                         make_key=lambda *a: a, get_or_create=lambda k, f: f())
             out = S.compute_stm(stub, steps=77)
         finally:
@@ -127,7 +127,8 @@ def run(chk):
     def th_stability():
         calls = []
         gen = _Obj(compute=lambda domain_obj, options: calls.append((domain_obj, options)))
-        stub = _Obj(domain_obj="MAN", eigendecomposition_options=_Obj(to_dict=lambda: {"a": 1}), generator=gen,
+        stub = _Obj(domain_obj="MAN", orbit=_Obj(initial_state="X0", period="T"), period="T",
+                    eigendecomposition_options=_Obj(to_dict=lambda: {"a": 1}), generator=gen,
                     make_key=lambda *a: a, get_or_create=lambda k, f: f(),
                     compute_stm=lambda steps: ("xx", "tt", "PHI_T", "PHI"))
         r = S.compute_stability(stub)
